@@ -27,7 +27,7 @@ Ev == Rec[l]
 
 Init == l = 1 /\ snap = [none |-> TRUE] /\ kind = "none"
 Next == /\ l <= Len(Rec)
-        /\ Ev.ev \in {"FInit", "Snap", "Closed", "Dropped", "Op", "Est", "Chain", "Hammer", "Locks", "Quiesce", "Foreign", "ClearLoad"}
+        /\ Ev.ev \in {"FInit", "Snap", "Closed", "Dropped", "Op", "Est", "Chain", "Hammer", "Locks", "Quiesce", "Foreign", "ClearLoad", "Index"}
         /\ l' = l + 1 /\ snap' = Ev /\ kind' = Ev.ev
 Spec == Init /\ [][Next]_<<l, snap, kind>>
 
@@ -113,6 +113,11 @@ FForeign == (kind = "Foreign") => snap.foreign = 0
 FClearLoad == (kind = "ClearLoad") =>
     /\ snap.store = <<>> /\ snap.costs = <<>> /\ snap.used = 0 /\ snap.len = 0
     /\ snap.lower <= snap.hitmiss /\ snap.hitmiss <= snap.upper
+
+\* C05 / C08 under real parallelism: two threads switch one key between TTL and no TTL at the same moment; whichever write
+\* lands last, the expiration index holds exactly the resident entry's bucket (IndexExact of Cache.tla, for that key)
+FIndex == (kind = "Index") =>
+    { <<x[1], x[2]>> : x \in Range(snap.em) } = { <<StorageBucket(e.at, e.d), e.i>> : e \in { y \in Range(snap.store) : y.d > 0 } }
 
 Accepted ==
     IF TLCGet("stats").diameter - 1 = Len(Rec) THEN TRUE
